@@ -249,7 +249,13 @@ def period_value(name, tns):
 class Timestamp:
     """pd.Timestamp(x) for a datetime64[ns] scalar"""
 
-    __hash__ = None
+    __hash__ = object.__hash__  # identity: window bounds are dictionary-key material in Config.contexts
+
+    def __bool__(self):
+        return True
+
+    def __deepcopy__(self, memo):
+        return self
 
     def __init__(self, ns):
         self.ns = ns
@@ -376,6 +382,8 @@ class DatetimeIndex:
         return self._cmp(o, "ge")
 
     def __getitem__(self, idx):
+        if idx is True:
+            raise ValueError("Multi-dimensional indexing (e.g. `obj[:, None]`) is no longer supported. Convert to a numpy array before indexing instead.")
         r = self.arr[idx]
         if isinstance(r, Arr):
             return DatetimeIndex(r)
